@@ -31,6 +31,7 @@ C11_Pure ==
   /\ Check("the balance maps obtained from the store were modified", T.purity.balUnchanged)
   /\ Check("the metadata maps obtained from the store were modified", T.purity.metaUnchanged)
   /\ Check("the variables map was modified", T.purity.varsUnchanged)
+  /\ Check("the variables map was modified (texts padded with white space)", ("paddedVarsUnchanged" \in DOMAIN T) => T.paddedVarsUnchanged)
   /\ Check("repeated runs differ (non-determinism)", \A i \in 1..Len(T.repeats) : Same(T.repeats[i], T.seq))
   /\ Check("repeated runs on a store that answers exactly what is asked differ (non-determinism)",
            ("repeats_exact" \in DOMAIN T) => \A i \in 1..Len(T.repeats_exact) : Same(T.repeats_exact[i], T.repeats_exact[1]))
